@@ -999,6 +999,12 @@ class ODLEncoder(PVLEncoder):
         and operators can be present in Units Expressions.
         """
 
+        if any(fe in value for fe in self.grammar.format_effectors):
+            raise ValueError(
+                f'The Units Expression "{value!r}" contains a line break, '
+                "which ODL does not allow."
+            )
+
         # if self.is_identifier(value.strip('*/()-')):
         if self.decoder.is_identifier(re.sub(r"[\s*/()-]", "", value)):
 
